@@ -15,7 +15,7 @@ RULE = ('exhaustive stratum: centre element (13 organic-subset elements; all 118
         'every multiset of <= 4 bonds of orders 1-3 to C/N/O (+H/F/S/Cl thorough), built through add_atom/add_bond; random stratum: '
         'whole Kekule molecules (corpus, curated, generator). oracles: re-derivation of the hydrogen count from the raw element '
         'tables, check_valence() == atoms without a state, RDKit GetTotalNumHs where both accept, molecule totals recomputed. '
-        'non-trivial = centre has a bond or charge or radical; distinct by (element, charge, radical, bond multiset)')
+        'hydrogen bookkeeping: isotopic/explicit hydrogens attached through the API, explicify/implicify, several structural edits in one transaction, written bracket counts that are states of the tables. non-trivial = centre has a bond or charge or radical; distinct by (element, charge, radical, bond multiset)')
 ASSUMPTIONS = ['the documented table semantics as re-implemented in vf/oracles/valence_ref.py (first matching rule in table order)',
                'RDKit comparison is one-sided: only states both toolkits accept; elemental As/B/Si/P/Se/... conventions excluded '
                '(centre without bonds) and radicals excluded',
